@@ -732,3 +732,199 @@ def gen_TrajPy(repo):
         L.append("def shape_%s : String := %s" % (nm, lean_str(_norm(out, f.body[-1].value))))
     L.append("\nend Strengths.Gen")
     return "\n".join(L) + "\n"
+
+
+# =============================================================================================
+# C16 : coarse-graining — the tests of check_index_map_validity, the aggregation subscripts of
+#       coarsegrain_system, the spreading subscripts of uncoarsegrain_trajectory_data, and the
+#       shape of the loops of coarsegrain_grid
+# =============================================================================================
+@group
+def gen_CoarsePy(repo):
+    cg = PySrc(repo, "src/strengths/coarsegrain.py")
+    L = ["namespace Strengths.Gen\n"]
+
+    # ---- check_index_map_validity: statements in order
+    chk = cg.func("check_index_map_validity")
+    body = [s for s in chk.body if not (isinstance(s, ast.Expr) and isinstance(s.value, ast.Constant))]
+    tests = []        # (tag, lean Bool expr or text)
+    order = []
+
+    def raises(stmts):
+        return len(stmts) == 1 and isinstance(stmts[0], ast.Raise)
+    env_loop = None
+    assigned = {}
+    for st in body:
+        if isinstance(st, ast.If) and raises(st.body) and not st.orelse:
+            t = _norm(cg, st.test)
+            if t.startswith("len(im)"):
+                tests.append(("imLenBad", "(len size : Int) : Bool", ExprTr(cg, {"len(im)": "len", "space.size()": "size"}).tr(st.test)))
+                order.append("length")
+            elif "im_min" in t:
+                tests.append(("imMinBad", "(mn : Int) : Bool", ExprTr(cg, {"im_min": "mn"}).tr(st.test)))
+                order.append("min")
+            elif "im_max" in t:
+                tests.append(("imMaxBad", "(mx : Int) : Bool", ExprTr(cg, {"im_max": "mx"}).tr(st.test)))
+                order.append("max")
+            else:
+                raise AnchorLost("coarsegrain.py:check_index_map_validity unknown test " + t)
+        elif isinstance(st, ast.For) and len(st.body) == 1 and isinstance(st.body[0], ast.If) and raises(st.body[0].body) \
+                and not st.body[0].orelse:
+            it, tgt, t = _norm(cg, st.iter), _norm(cg, st.target), _norm(cg, st.body[0].test)
+            if it == "im" and tgt == "i":
+                L.append("/-- element type test of `check_index_map_validity` -/\ndef imTypeTest : String := %s" % lean_str(t))
+                order.append("type")
+            elif tgt == "i" and isinstance(st.iter, ast.Call) and getattr(st.iter.func, "id", "") == "range" and len(st.iter.args) == 2:
+                lo = ExprTr(cg, {"im_max": "mx"}).tr(st.iter.args[0])
+                hi = ExprTr(cg, {"im_max": "mx"}).tr(st.iter.args[1])
+                L.append("/-- presence loop `for i in range(lo, hi): if i not in im: raise` -/")
+                L.append("def imPresenceLo (mx : Int) : Int := %s\ndef imPresenceHi (mx : Int) : Int := %s" % (lo, hi))
+                L.append("def imPresenceTest : String := %s" % lean_str(t))
+                order.append("presence")
+            else:
+                raise AnchorLost("coarsegrain.py:check_index_map_validity unknown loop " + it)
+        elif isinstance(st, ast.Assign) and len(st.targets) == 1 and isinstance(st.targets[0], ast.Name):
+            assigned[st.targets[0].id] = _norm(cg, st.value)
+        elif isinstance(st, ast.For):
+            env_loop = st
+            order.append("envloop")
+        else:
+            raise AnchorLost("coarsegrain.py:check_index_map_validity unexpected statement")
+    for k, want in (("im_max", "max(im)"), ("im_min", "min(im)"), ("env", "space.get_cell_env_array()")):
+        if assigned.get(k) != want:
+            raise AnchorLost("coarsegrain.py:check_index_map_validity %s = %s" % (k, want))
+    m = re.fullmatch(r"\[(-?\d+)foriinrange\(min\(im\),max\(im\)\+1\)\]", assigned.get("env_out", ""))
+    if not m or env_loop is None:
+        raise AnchorLost("coarsegrain.py:check_index_map_validity env_out / environment loop")
+    sentinel = int(m.group(1))
+    if _norm(cg, env_loop.iter) != "range(space.size())" or _norm(cg, env_loop.target) != "i":
+        raise AnchorLost("coarsegrain.py:check_index_map_validity environment loop header")
+    eb = list(env_loop.body)
+    skip = None
+    if isinstance(eb[0], ast.If) and len(eb[0].body) == 1 and isinstance(eb[0].body[0], ast.Continue) and not eb[0].orelse:
+        skip = ExprTr(cg, {"im[i]": "g"}).tr(eb[0].test)
+        eb = eb[1:]
+    if len(eb) != 1 or not isinstance(eb[0], ast.If):
+        raise AnchorLost("coarsegrain.py:check_index_map_validity environment loop body")
+    node = eb[0]
+    nm = {"env_out[im[i]]": "cur", "env[i]": "e"}
+    c1 = ExprTr(cg, nm).tr(node.test)
+    if not (len(node.body) == 1 and isinstance(node.body[0], ast.Assign) and _norm(cg, node.body[0]) == "env_out[im[i]]=env[i]"):
+        raise AnchorLost("coarsegrain.py:check_index_map_validity environment loop first branch")
+    if not (len(node.orelse) == 1 and isinstance(node.orelse[0], ast.If)):
+        raise AnchorLost("coarsegrain.py:check_index_map_validity environment loop elif")
+    n2 = node.orelse[0]
+    c2 = ExprTr(cg, nm).tr(n2.test)
+    if not (len(n2.body) == 1 and isinstance(n2.body[0], ast.Pass) and raises(n2.orelse)):
+        raise AnchorLost("coarsegrain.py:check_index_map_validity environment loop else raise")
+    for tag, sig, e in tests:
+        L.append("def %s %s := %s" % (tag, sig, e))
+    L.append("/-- order of the tests -/\ndef imTestOrder : List String := %s" % lean_list([lean_str(o) for o in order]))
+    L.append("/-- environment loop: initial slot value, skip test on g = im[i] (`false` when absent), first-seen test and same-environment test\non cur = env_out[im[i]], e = env[i]; anything else raises -/")
+    L.append("def envSentinel : Int := (%d : Int)" % sentinel)
+    L.append("def envSkip (g : Int) : Bool := %s" % (skip if skip is not None else "false"))
+    L.append("def envUnset (cur e : Int) : Bool := %s" % c1)
+    L.append("def envSame (cur e : Int) : Bool := %s\n" % c2)
+
+    # ---- coarsegrain_system: the two aggregation statements
+    cs = cg.func("coarsegrain_system")
+    aug = [n for n in ast.walk(cs) if isinstance(n, ast.AugAssign) and isinstance(n.op, ast.Add)]
+    nm = {"s": "s", "cgspace.size()": "ncg", "index_map[i]": "g", "system.space.size()": "n", "i": "i"}
+    found = {}
+    for a in aug:
+        tgt, val = a.target, a.value
+        if isinstance(tgt, ast.Subscript) and isinstance(val, ast.Subscript):
+            found[_norm(cg, tgt.value)] = (ExprTr(cg, nm).tr(tgt.slice), _norm(cg, val.value), ExprTr(cg, nm).tr(val.slice))
+    if sorted(found) != ["cgchstt", "cgstate"]:
+        raise AnchorLost("coarsegrain.py:coarsegrain_system aggregation statements")
+    if found["cgstate"][1] != "system.state.value" or found["cgchstt"][1] != "system.chemostats":
+        raise AnchorLost("coarsegrain.py:coarsegrain_system aggregation sources")
+    L.append("/-- `coarsegrain_system`: cgstate[dst] += state[src] ; cgchstt[dst] += chemostats[src]  (ncg = #groups, n = #cells, g = index_map[i]) -/")
+    L.append("def cgStateDst (ncg s g : Int) : Int := %s" % found["cgstate"][0])
+    L.append("def cgStateSrc (n s i : Int) : Int := %s" % found["cgstate"][2])
+    L.append("def cgChemDst (ncg s g : Int) : Int := %s" % found["cgchstt"][0])
+    L.append("def cgChemSrc (n s i : Int) : Int := %s" % found["cgchstt"][2])
+    guard = None
+    for n in ast.walk(cs):
+        if isinstance(n, ast.If) and any(isinstance(x, ast.For) for x in n.body):
+            guard = ExprTr(cg, {"index_map[i]": "g"}).tr(n.test)
+    if guard is None:
+        raise AnchorLost("coarsegrain.py:coarsegrain_system dropped-cell guard")
+    L.append("def cgKeep (g : Int) : Bool := %s" % guard)
+    clamp = None
+    for n in ast.walk(cs):
+        if isinstance(n, ast.Assign) and _norm(cg, n.targets[0]) == "cgchstt[i]":
+            clamp = _norm(cg, n.value)
+    if clamp is None:
+        raise AnchorLost("coarsegrain.py:coarsegrain_system chemostat clamp")
+    L.append("def cgChemClamp : String := %s" % lean_str(clamp))
+    sizes = sorted(set(_norm(cg, n.value) for n in ast.walk(cs) if isinstance(n, ast.Assign) and _norm(cg, n.targets[0]) in ("cgstate", "cgchstt")
+                       and isinstance(n.value, ast.ListComp)))
+    L.append("def cgArrayInit : List String := %s\n" % lean_list([lean_str(x) for x in sizes]))
+
+    # ---- coarsegrain_grid: guards and the accumulate statements, as text (loops are hand-modelled)
+    gg = cg.func("coarsegrain_grid")
+    acc = [(_norm(cg, n.target), _norm(cg, n.value)) for n in ast.walk(gg) if isinstance(n, ast.AugAssign)]
+    L.append("/-- `coarsegrain_grid`: every augmented assignment (target, value), in source order -/")
+    L.append("def cgGridAccumulate : List (String × String) := %s" %
+             lean_list(["(%s, %s)" % (lean_str(a), lean_str(b)) for a, b in acc]))
+    conds = [_norm(cg, n.test) for n in ast.walk(gg) if isinstance(n, ast.If)]
+    L.append("def cgGridTests : List String := %s" % lean_list([lean_str(c) for c in conds]))
+    asg = [(_norm(cg, n.targets[0]), _norm(cg, n.value)) for n in ast.walk(gg) if isinstance(n, ast.Assign)
+           and _norm(cg, n.targets[0]) in ("i", "j", "c", "n_cell_out", "nodes[index_map[i]].environment", "edge.distance", "distance", "grid_cell_edge")]
+    L.append("def cgGridAssign : List (String × String) := %s" % lean_list(["(%s, %s)" % (lean_str(a), lean_str(b)) for a, b in asg]))
+    app = [_norm(cg, n) for n in ast.walk(gg) if isinstance(n, ast.Call) and getattr(n.func, "attr", "") == "append"]
+    L.append("def cgGridAppends : List String := %s\n" % lean_list([lean_str(a) for a in app]))
+
+    # ---- grid_to_graph: the three face tests and the neighbour coordinates
+    g2g = cg.func("grid_to_graph")
+    faces = []
+    for n in ast.walk(g2g):
+        if isinstance(n, ast.If) and len(n.body) == 1 and isinstance(n.body[0], ast.Expr) and "edges.append" in _norm(cg, n.body[0]):
+            call = n.body[0].value.args[0]
+            kw = {k.arg: _norm(cg, k.value) for k in call.keywords}
+            faces.append((_norm(cg, n.test), kw.get("i", ""), kw.get("j", ""), kw.get("surface", ""), kw.get("distance", "")))
+    if len(faces) != 3:
+        raise AnchorLost("coarsegrain.py:grid_to_graph face tests")
+    L.append("/-- `grid_to_graph`: (test, i, j, surface, distance) of the three inner-face statements -/")
+    L.append("def g2gFaces : List (String × String × String × String × String) := %s" %
+             lean_list(["(%s)" % ", ".join(lean_str(x) for x in f) for f in faces]))
+    geo = [(_norm(cg, n.targets[0]), _norm(cg, n.value)) for n in g2g.body if isinstance(n, ast.Assign)
+           and _norm(cg, n.targets[0]) in ("edge_dst", "edge_sfc")]
+    L.append("def g2gGeometry : List (String × String) := %s\n" % lean_list(["(%s, %s)" % (lean_str(a), lean_str(b)) for a, b in geo]))
+
+    # ---- uncoarsegrain_trajectory_data
+    un = cg.func("uncoarsegrain_trajectory_data")
+    store = None
+    for n in ast.walk(un):
+        if isinstance(n, ast.Assign) and isinstance(n.targets[0], ast.Subscript) and _norm(cg, n.targets[0].value) == "data":
+            store = n
+    if store is None:
+        raise AnchorLost("coarsegrain.py:uncoarsegrain_trajectory_data store")
+    nm = {"n": "k", "state_size": "ssz", "s": "s", "ncg_space.size()": "nf", "j": "j"}
+    L.append("/-- `uncoarsegrain_trajectory_data`: data[dst] = in_state[n, s, node_index] / len(cg_nodes[node_index]) -/")
+    L.append("def uncgDst (ssz nf k s j : Int) : Int := %s" % ExprTr(cg, nm).tr(store.targets[0].slice))
+    L.append("def uncgValue : String := %s" % lean_str(_norm(cg, store.value)))
+    ssz = _assign_value(cg, un, "state_size")
+    L.append("def uncgStateSize (ns nf : Int) : Int := %s" %
+             ExprTr(cg, {"trajectory.system.network.nspecies()": "ns", "ncg_space.size()": "nf"}).tr(ssz))
+    L.append("def uncgDataInit : String := %s" % lean_str(_norm(cg, _assign_value(cg, un, "data"))))
+    L.append("def uncgInState : String := %s" % lean_str(_norm(cg, _assign_value(cg, un, "in_state"))))
+    memb = [(_norm(cg, n.test), _norm(cg, n.body[0])) for n in ast.walk(un) if isinstance(n, ast.If) and len(n.body) == 1]
+    L.append("def uncgMembers : List (String × String) := %s" % lean_list(["(%s, %s)" % (lean_str(a), lean_str(b)) for a, b in memb]))
+    loops = [(_norm(cg, n.target), _norm(cg, n.iter)) for n in ast.walk(un) if isinstance(n, ast.For)]
+    L.append("def uncgLoops : List (String × String) := %s" % lean_list(["(%s, %s)" % (lean_str(a), lean_str(b)) for a, b in loops]))
+
+    # ---- simulate_script glue
+    sim = PySrc(repo, "src/strengths/simulate.py")
+    ss = sim.func("simulate_script")
+    glue = []
+    for n in ast.walk(ss):
+        if isinstance(n, ast.If) and _norm(sim, n.test) == "cgmapisNone":
+            glue = [_norm(sim, s) for s in n.orelse]
+    if not glue:
+        raise AnchorLost("simulate.py:simulate_script cgmap branch")
+    L.append("/-- `simulate_script`, branch `cgmap is not None` -/")
+    L.append("def simulateCgGlue : List String := %s" % lean_list([lean_str(g) for g in glue]))
+    L.append("\nend Strengths.Gen")
+    return "\n".join(L) + "\n"
